@@ -84,7 +84,7 @@ def array1d : Op := fun j => do
   let vals ← getRats (← field j "values")
   let s ← getRat (← field j "scale")
   let hdu ← match (j.getObjVal? "stored_native").toOption with
-    | some sj => do pure (array1dHduNativeStored (← getRats sj) s 0)
+    | some sj => do pure (array1dHduNativeStored mask (← getRats sj) s 0)
     | none => pure (array1dHdu mask vals s 0)
   let r1 ← match array1dFromHdu hdu with
     | some (v, sc) => pure (obj [("native", ratsToJson v), ("scales", ratsToJson [sc])])
